@@ -339,6 +339,10 @@ func c20Run(p *run.Part, tier string) {
 		}
 		out := make([][]res, len(frontier))
 		parallelFor(len(frontier), func(fi int) {
+			if dl.Expired() {
+				p.Inexhaustive(fmt.Sprintf("deadline inside depth %d", d+1))
+				return
+			}
 			for _, o := range alpha {
 				np := append(append([]ksOp{}, frontier[fi]...), o)
 				w := newKsWorld()
